@@ -1005,6 +1005,10 @@ def jacobi(chk, F, body):
         vsw = [u for u in pp["updates"] if u["arr"] == "V" and len(u["frames"]) == 2 and not equal(u["rhs"], A("V", *u["idx"]))]
         if bool(dsw) != bool(vsw):
             sort_bad.append("eigenvalue exchange %s without eigenvector exchange %s" % (bool(dsw), bool(vsw)))
+        for u in vsw:
+            fr = u["frames"][-1]
+            if (fr[1], fr[2]) != ("0", n) or u["idx"][0] != fr[0]:
+                sort_bad.append("the eigenvector columns are exchanged over rows %s..%s only" % (fr[1], fr[2]))
         if dsw and vsw:
             n_sw += 1
             cols_d = {i[0] for i, _ in dsw}
